@@ -152,7 +152,8 @@ pub fn gen_cfg(rng: &mut Rng, small: bool) -> FutCfg {
     };
     let fl = if crowd == 1 { Flavour::Broadcast } else { fl };
     let nsinks = if crowd == 2 { 9 + rng.below(3) as usize } else { 1 + rng.below(2) as usize };
-    let vmax = if small || crowd == 2 { 4 } else { 12 };
+    // (a crowd of sinks on a one-slot queue wakes everybody for every slot: keep their scripts short)
+    let vmax = if crowd == 2 { 2 } else if small { 4 } else { 12 };
     // a crowd of parked stream tasks is told about the end of the stream by the last sender's drop
     let sinks: Vec<(u32, bool)> = (0..nsinks).map(|_| (1 + rng.below(vmax) as u32, rng.chance(1, 2))).collect();
     let nstreams = if crowd == 1 {
